@@ -265,7 +265,8 @@ func (d *dumper) lookup(pkg *types.Package, name string) (string, error) {
 			if err != nil {
 				return "", err
 			}
-			tps = append(tps, fmt.Sprintf("(mkTparam %s %s %s)", coqStr(tp.Obj().Name()), c, el))
+			tps = append(tps, fmt.Sprintf("(mkTparam %s %s %s %s)", coqStr(tp.Obj().Name()), c, el,
+				coqBool(under.IsComparable() && under.NumMethods() == 0)))
 		}
 	}
 	iface := obj.Type().Underlying().(*types.Interface).Complete()
